@@ -518,6 +518,64 @@ fn same_names_case(src: &mut Src, ctx: &mut Ctx) -> Result<(), String> {
     }
     Ok(())
 }
+/// Separations at the top of the integer range: the placed instance lands far away, at a location that is
+/// still representable, and nothing on the way there may overflow. Decided in 128-bit arithmetic.
+fn extreme_sep_case(src: &mut Src, ctx: &mut Ctx) -> Result<(), String> {
+    let size_ref = (src.i64_in(1, 9), src.i64_in(1, 9));
+    let size = (src.i64_in(1, 40), src.i64_in(1, 40));
+    let root = (src.i64_in(0, 500), src.i64_in(0, 500));
+    let side = *src.pick(&[MSide::Left, MSide::Bottom, MSide::Right, MSide::Top]);
+    let (rh, rv) = (src.bool(), src.bool());
+    let horizontal = side.horizontal();
+    let own = if horizontal { size.0 } else { size.1 } as i128;
+    // the largest separation for which the instance's location and bounding box stay representable, minus 0..3
+    let max = i64::MAX as i128;
+    let min = i64::MIN as i128;
+    let slack = src.i64_in(0, 3) as i128;
+    let (ref_lo, ref_hi) = if horizontal { (root.0 as i128, (root.0 + size_ref.0) as i128) } else { (root.1 as i128, (root.1 + size_ref.1) as i128) };
+    let sep: i128 = match side {
+        MSide::Left | MSide::Bottom => (ref_lo - own - min - slack).min(max),
+        _ => (max - own - ref_hi - slack).min(max),
+    };
+    let lo: i128 = match side {
+        MSide::Left | MSide::Bottom => ref_lo - sep - own,
+        _ => ref_hi + sep,
+    };
+    let reflected_along = if horizontal { rh } else { rv };
+    let want_along: i128 = if reflected_along { lo + own } else { lo };
+    if want_along < min || want_along > max || lo < min || lo + own > max {
+        ctx.excluded("location not representable");
+        return Ok(());
+    }
+    let mut lib = tet::library::Library::new("plib");
+    let cref = lib.cells.add(Cell::from(Layout::new("cref", 0, Outline::rect(size_ref.0 as isize, size_ref.1 as isize).unwrap())));
+    let cown = lib.cells.add(Cell::from(Layout::new("cown", 0, Outline::rect(size.0 as isize, size.1 as isize).unwrap())));
+    let mut top = Layout::new("top", 0, Outline::rect(100, 100).unwrap());
+    let a = top.instances.add(Instance { inst_name: "a".into(), cell: cref, loc: (root.0 as isize, root.1 as isize).into(), reflect_horiz: false, reflect_vert: false });
+    let axis = if horizontal { Dir::Horiz } else { Dir::Vert };
+    let sepby = SepBy::UnitSpeced(UnitSpeced::PrimPitches(PrimPitches::new(axis, sep as isize)));
+    let align = if horizontal { MSide::Bottom } else { MSide::Left };
+    let b = top.instances.add(Instance {
+        inst_name: "b".into(),
+        cell: cown,
+        loc: Place::Rel(RelativePlace { to: Placeable::Instance(a), side: side.to(), align: Align::Side(align.to()), sep: if horizontal { Separation::x(sepby) } else { Separation::y(sepby) } }),
+        reflect_horiz: rh,
+        reflect_vert: rv,
+    });
+    lib.cells.add(Cell::from(top));
+    ctx.label("separation at the top of the integer range");
+    ctx.nontrivial(hash_of(&(size_ref, size, root, format!("{:?}", side), rh, rv, slack as i64)));
+    tet::placer::Placer::place(lib, empty_stack()).map_err(|e| format!("placement with a separation of {} primitive pitches ({:?} of an instance at {:?}) failed although the location {} is representable: {:?}", sep, side, root, want_along, e))?;
+    let inst = b.read().unwrap();
+    let got = match &inst.loc {
+        Place::Abs(xy) => if horizontal { xy.x.num as i128 } else { xy.y.num as i128 },
+        Place::Rel(_) => return Err("instance still has a relative location after placement".into()),
+    };
+    if got != want_along {
+        return Err(format!("instance placed {:?} of an instance at {:?} (size {:?}) with separation {}: coordinate {} expected {}", side, root, size_ref, sep, got, want_along));
+    }
+    Ok(())
+}
 /// fixed ab62e2a: a cell whose list of objects awaiting placement holds an instance of the cell itself, placed
 /// relative to a sibling, was not seen by the cyclic-instantiation check; the placer then waited forever for
 /// the cell's own lock. An error is required.
@@ -635,7 +693,19 @@ fn array_case(src: &mut Src, ctx: &mut Ctx) -> Result<(), String> {
     let nc = src.usize_in(1, 3);
     let sizes: Vec<P> = (0..nc).map(|_| (src.i64_in(1, 20), src.i64_in(1, 20))).collect();
     let na = src.usize_in(1, 3);
-    let arrs: Vec<MArrayInst> = (0..na).map(|_| MArrayInst { array: gen_array(src, 2, nc), loc: (src.signed(300), src.signed(300)), rh: src.bool(), rv: src.bool() }).collect();
+    // (one array instance in six sits exactly on the parent's origin, or on one of its axes)
+    let arrs: Vec<MArrayInst> = (0..na)
+        .map(|_| MArrayInst {
+            array: gen_array(src, 2, nc),
+            loc: match src.below(12) {
+                0 => (0, 0),
+                1 => (0, src.signed(300)),
+                _ => (src.signed(300), src.signed(300)),
+            },
+            rh: src.bool(),
+            rv: src.bool(),
+        })
+        .collect();
     let mut lib = tet::library::Library::new("alib");
     // one case in three: the unit cells are not listed in the library (they are reached through the arrays
     // only, at whatever nesting depth) and hold a relatively placed pair of their own
@@ -743,6 +813,7 @@ fn run(run: &mut Run) {
     run.explore("cyclic", run.tier.pick(40_000, 400_000), 400, &cyclic_case);
     run.literals("literals", &[vec![0]], &literal_case);
     run.explore("same-names", run.tier.pick(40_000, 400_000), 400, &same_names_case);
+    run.explore("extreme-separations", run.tier.pick(20_000, 200_000), 40, &extreme_sep_case);
     run.explore("arrays", run.tier.pick(200_000, 2_000_000), 200, &array_case);
     // the same, each case in a thread of its own (per-thread state of the code starts from scratch)
     run.explore_fresh("arrays", run.tier.pick(3_000, 40_000), 200, &array_case);
@@ -754,6 +825,7 @@ fn case(sub: &str) -> Option<Box<CaseFn<'static>>> {
         "cyclic" => Some(Box::new(cyclic_case)),
         "literals" => Some(Box::new(literal_case)),
         "same-names" => Some(Box::new(same_names_case)),
+        "extreme-separations" => Some(Box::new(extreme_sep_case)),
         "arrays" => Some(Box::new(array_case)),
         _ => None,
     }
